@@ -73,7 +73,8 @@ Fault(f) == CASE f = "eof" -> <<[e |-> "PEof", keep_read |-> TRUE]>>
               [] f = "endErr" -> <<PF("end", 3, [err |-> "x:ended"])>>
               [] f = "detachS" -> <<PF("detach", 3, [h |-> 5, closed |-> TRUE, err |-> ""])>>
               [] f = "detachSErr" -> <<PF("detach", 3, [h |-> 5, closed |-> TRUE, err |-> "x:gone"])>>
-              [] f = "refuseS" -> <<PF("attach", 3, [name |-> "L1", h |-> 5, role |-> "r", snd |-> 2, rcv |-> 0, tgt |-> FALSE]), PF("detach", 3, [h |-> 5, closed |-> TRUE, err |-> "x:refused"])>>
+              [] f = "refuseS" -> <<[e |-> "PFrame", perf |-> "attach", ch |-> 3, nosettle |-> TRUE, f |-> [name |-> "L1", h |-> 5, role |-> "r", snd |-> 2, rcv |-> 0, tgt |-> FALSE]],
+                                    PF("detach", 3, [h |-> 5, closed |-> TRUE, err |-> "x:refused"])>>   \* (written in one go: both frames are there when the endpoint reads)
               [] f = "detachSnc" -> <<PF("detach", 3, [h |-> 5, closed |-> FALSE, err |-> "x:gone"])>>
               [] f = "detachRnc" -> <<PF("detach", 3, [h |-> 6, closed |-> FALSE, err |-> "x:gone"])>>
               [] OTHER -> <<PF("detach", 3, [h |-> 6, closed |-> TRUE, err |-> "x:gone"])>>
